@@ -139,6 +139,13 @@ impl DiskReadScheduler {
                         Some(columns) => columns,
                         None => {
                             handle.set_empty();
+                            // Clear the flag, or every other thread that needs a column of this partition spins forever
+                            self.load_scheduled
+                                .read()
+                                .unwrap()
+                                .get(&partition_handle)
+                                .unwrap()
+                                .store(false, Ordering::SeqCst);
                             return None;
                         }
                     }
